@@ -52,7 +52,31 @@ def run_parse(case):
         v = name(x)
         rev[(type(v), v)] = x
     try:
-        r = core.with_alarm(2, R.from_string, text)
+        how = case.get("how", 0)
+        if how == 1:
+            # any surrounding whitespace: the characters Python's str.strip() removes
+            ws = ["\x1c", "\x1f", "\x85", "\xa0", "\u2003", "\r\n", "\n", "\x0b\x0c"]
+            text = ws[case["id"] % len(ws)] + text + ws[(case["id"] // 3) % len(ws)]
+        if how == 2:
+            # through a file and Ranking.from_file, the ranking possibly preceded / followed by line breaks
+            import os
+            path = os.path.join(core.workdir("files"), f"rk_{os.getpid()}_{case['id']}.txt")
+            pre = ["", "\n", "\n\n", " \n"][case["id"] % 4]
+            with open(path, "w", encoding="utf-8") as f:
+                f.write(pre + text + ["", "\n"][case["id"] % 2])
+            try:
+                r = core.with_alarm(2, R.from_file, path)
+            finally:
+                os.unlink(path)
+        else:
+            r = core.with_alarm(2, R.from_string, text)
+    except core.Timeout:
+        rec["out"] = "hang"
+        return rec
+    except Exception as ex:
+        rec["out"] = type(ex).__name__
+        return rec
+    try:
         rec["got"] = [sorted(rev.get((e.type, e.value), 0) for e in b) for b in r]
         want_int = case["naming"] in ("ints", "big", "zero")
         rec["typeok"] = 1 if all((e.type is int) == want_int for b in r for e in b) else 0
@@ -113,6 +137,47 @@ def neighbour_cases(rng, count):
     return [{"strings": strs[k:k + 1000]} for k in range(0, len(strs), 1000)]
 
 
+def run_filetext(case):
+    """arbitrary text as a dataset FILE: the reader must return a dataset or refuse with ValueError (an empty result is
+    refused with the library's EmptyDatasetException); nothing else, no hang"""
+    import os
+    from corankco.dataset import Dataset, EmptyDatasetException
+    rec = {"id": case["id"], "kind": "total", "first": case["texts"][0], "n": len(case["texts"]), "outs": [], "chars": []}
+    path = os.path.join(core.workdir("files"), f"txt_{os.getpid()}_{case['id']}.txt")
+    import contextlib
+    import io
+    for t in case["texts"]:
+        try:
+            with open(path, "w", encoding="utf-8") as f:
+                f.write(t)
+            with contextlib.redirect_stdout(io.StringIO()):
+                core.with_alarm(2, Dataset.from_file, path)
+            rec["outs"].append("ok")
+        except core.Timeout:
+            rec["outs"].append("hang")
+        except EmptyDatasetException:
+            rec["outs"].append("ValueError")        # documented refusal of a file without any ranking
+        except Exception as ex:
+            rec["outs"].append(type(ex).__name__)
+    if os.path.exists(path):
+        os.unlink(path)
+    rec["bad"] = [t for t, o in zip(case["texts"], rec["outs"]) if o not in ("ok", "ValueError")][:5]
+    return rec
+
+
+def filetext_cases(rng, count):
+    alpha = ["[", "]", "{", "}", ",", ":", " ", "a", "1", "\n", "\n", "  ", "\t", "%", "[[1],[2]]", "[{a},{b}]", "   ", "\\\n"]
+    texts = []
+    for _ in range(count):
+        texts.append("".join(rng.choice(alpha) for _ in range(rng.randint(0, 14))))
+    return [{"texts": texts[k:k + 500]} for k in range(0, len(texts), 500)]
+
+
+def relative_path_cases(dss):
+    return [{"D": D, "naming": ["ints", "letters"][k % 2], "ne": max(grids.universe(D)), "reader": k % 2, "relative": 1}
+            for k, D in enumerate(dss)]
+
+
 def file_cases(dss):
     out = []
     for k, D in enumerate(dss):
@@ -132,8 +197,23 @@ def models(tier):
 
 def stages(tier, rng, only=None):
     n = 3 if tier == "quick" else 4
+    def variants():
+        base = _export("rendered", 3, 0)
+        out_ = []
+        for k, r in enumerate(base[::7]):
+            for how in (1, 2):
+                c = dict(r)
+                c["how"] = how
+                out_.append(c)
+        return out_
     out = [Stage("parse", "Trace_Text", run_parse, lambda: _export("rendered", n, 0), lambda r: len(r["r"]) >= 1, _init,
                  chunk=30000),
+           Stage("parse_whitespace_and_files", "Trace_Text", run_parse, variants, lambda r: len(r["r"]) >= 1, _init,
+                 chunk=30000),
+           Stage("file_texts", "Trace_Text", run_filetext, lambda: filetext_cases(rng, 4000 if tier == "quick" else 40000),
+                 None, _init, chunk=2000),
+           Stage("files_relative_path", "Trace_Dataset", datarun.run_file,
+                 lambda: relative_path_cases(grids.datasets(3, 2)[::10]), lambda r: True, datarun.init, procs=1),
            Stage("total", "Trace_Text", run_total,
                  lambda: total_cases(5, rng, 7, 20000) if tier == "quick" else total_cases(6, rng, 8, 200000),
                  None, _init, chunk=2000),
